@@ -49,6 +49,23 @@ func genC02(c *lp.Ctx) {
 			enc = "none"
 		}
 		cs := NewCase(c.Rng, ks, "", enc)
+		if it%10 == 3 {
+			// a range that starts at the last entry of a "directory" (a 257-bit node of > 10 keys) and goes on
+			// through keys that branch off inside the directory's common prefix
+			dk, last := gen.DirectoryThenTail(c.Rng, []int{0, 0, 12, 20}[c.Rng.Intn(4)])
+			enc = []string{"i32", "u16", "raw", "s16", "i64"}[c.Rng.Intn(5)]
+			cs = NewCase(c.Rng, dk, []string{"", "", "tfff", "-", "nnnn"}[c.Rng.Intn(5)], enc)
+			if cs.Vals != nil && last >= 0 {
+				for i := range cs.Vals {
+					cs.Vals[i] = valueOf(c.Rng, enc, i+1, 7) // distinct values
+					if i > last && i <= last+5 && strings.HasPrefix(cs.Keys[i], cs.Keys[last][:1]) {
+						cs.Vals[i] = cs.Vals[last]
+					}
+				}
+				cs.oracle()
+			}
+			c.Hit("shape:directory-then-tail")
+		}
 		c.Case(cs.Key(), len(cs.RKeys) < len(cs.Keys))
 		if !build(c, cs) {
 			continue
@@ -364,6 +381,9 @@ func genC13(c *lp.Ctx) {
 	modes := []string{"ff", "tf", "ft", "tt"} // inner, leaf
 	for it := 0; it < n; it++ {
 		ks := gen.Any(c.Rng, size)
+		if it == 1 {
+			ks = gen.HugeTailSet(c.Rng) // leaf tails of 64 KiB and more
+		}
 		base := NewCase(c.Rng, ks, "tfff", "")
 		d := "tf"[c.Rng.Intn(2)]
 		qs := append(gen.Queries(c.Rng, base.Keys, c.Pick(50, 200)), gen.HostileQueries(c.Rng, base.Keys)...)
@@ -478,6 +498,15 @@ func genC18(c *lp.Ctx) {
 		}
 		if got := c.Do("trie.stat"); got != fresh {
 			cs.viol(c, "Stat unchanged by a marshal round trip", "trie.stat", fresh, got)
+		}
+		if it%4 == 0 {
+			// HISTORY: Stat was asked, then the instance is emptied: it must report the empty trie
+			c.Do("trie.reset")
+			got := c.Do("trie.stat")
+			if !strings.Contains(got, " keys=0 nodes=0") {
+				cs.viol(c, "after Reset Stat reports the empty trie (0 keys, 0 nodes)", "trie.reset; trie.stat", "… keys=0 nodes=0", got)
+			}
+			c.Hit("history:stat,reset,stat")
 		}
 	}
 }
